@@ -90,7 +90,10 @@ def generic_run(prop, spec, tier, seed):
                 print("HARNESS-ERROR %s" % oc[2][:500])
                 violations.append("harness")
                 continue
-            is_v, path, target, tag = runner.confirm_and_report(prop, exe, f, extra, ddmin=part.get("ddmin", True))
+            if part.get("race") and oc[0] == "sanitizer":
+                is_v, path, target, tag = runner.confirm_race(prop, exe, f, extra)
+            else:
+                is_v, path, target, tag = runner.confirm_and_report(prop, exe, f, extra, ddmin=part.get("ddmin", True))
             if not is_v:
                 counters["unreproducible_failures"] = counters.get("unreproducible_failures", 0) + 1
                 nts.append("unreproducible failure dropped: %s" % (oc[2][:200],))
@@ -109,7 +112,8 @@ def generic_run(prop, spec, tier, seed):
             else:
                 counters_all[prefix + k] = counters_all.get(prefix + k, 0) + v
         nt_total += len(fps.get(part["nt"], ()))
-        evals += int(counters.get(part.get("eval_counter", "cases"), 0))
+        ec = part.get("eval_counter", "cases")
+        evals += int(sum(counters.get(k, 0) for k in (ec if isinstance(ec, (list, tuple)) else [ec])))
         samples += smp[:2]
         notes += nts
         rules.append((pname + ": " if len(parts) > 1 else "") + part["rule"])
@@ -140,6 +144,8 @@ def generic_run(prop, spec, tier, seed):
 
 
 def replay_one(prop, spec, path):
+    if "replay" in spec:
+        return spec["replay"](prop, spec, path)
     part = _parts(spec)[0]
     text = open(path).read() if os.path.exists(path) else ""
     for cand in _parts(spec):
@@ -162,6 +168,8 @@ def setup():
     with runner.BuildLock():
         build.build_gen()
         done = set()
+        build.build_engine("fuzz", "fuzz-nd")
+        build.build_engine("fuzz", "fuzz")
         for sp in SPECS.values():
             for part in _parts(sp):
                 key = (part["engine"], part.get("flavour", "asan"))
@@ -204,12 +212,13 @@ for _p in ("C01", "C06", "C07", "C13", "C14"):
                          "budget_share": 0.3, "seed_offset": 4242,
                          "rule": "crash images (see C02/C05) with orphan compaction outputs, temporary files or two MANIFESTs, recovered by the real code: once ldb_open has returned the directory must hold only "
                                  "CURRENT, LOCK, LOG[.old], one MANIFEST, one log and the tables of the reported layout; non-trivial = image with an orphan table or a CURRENT switch in progress"}]
+    _ec = "layout_checks" if _p == "C14" else "cases"
     SPECS[_p] = {
         "level": "exploration", "quick_budget": 50, "thorough_budget": 600, "assumptions": COMMON_ASSUME, "run": generic_run,
         "parts": [
-            {"name": "asan", "engine": "hist", "flavour": "asan", "kind": _p, "nt": _p + ".nt", "rule": HIST_RULES[_p],
+            {"name": "asan", "engine": "hist", "flavour": "asan", "kind": _p, "nt": _p + ".nt", "rule": HIST_RULES[_p], "eval_counter": _ec,
              "quick_count": 100000, "thorough_count": 10000000, "budget_share": 0.4},
-            {"name": "plain", "engine": "hist", "flavour": "plain", "kind": _p, "nt": _p + ".nt",
+            {"name": "plain", "engine": "hist", "flavour": "plain", "kind": _p, "nt": _p + ".nt", "eval_counter": _ec,
              "rule": "same generator and oracles, lcdb built without sanitizers (clang -O1, asserts on) for ~3x the case rate; seeds differ from the asan part",
              "quick_count": 100000, "thorough_count": 10000000, "budget_share": 0.6, "extra": [], "seed_offset": 7777},
         ] + _extra_parts,
@@ -257,6 +266,7 @@ CODEC_ASSUME = [
 
 SPECS["C15"] = {
     "engine": "codec", "flavour": "asan", "kind": "C15", "nt": "C15.nt", "level": "exploration",
+    "eval_counter": ["log.roundtrips", "log.truncations", "log.alterations", "crc.checks"],
     "rule": "cases = rapidcheck-generated (record lengths around block/fragment boundaries and random up to 200 KiB (1 MiB thorough), optional prefix log for the reuse path, "
             "truncation offsets, byte alterations: bit flips, 0x00/0xFF, multi-byte xor, zeroed 512 B sector) and CRC cases (length sweep x alignment, table-driven path then hardware path after ldb_crc32c_init); "
             "oracle: bytes equal the reference encoder, both decoders return the records, a cut yields exactly the records wholly before it with no report, alterations yield a subsequence, later intact blocks are delivered and any loss is reported; "
@@ -275,10 +285,10 @@ SPECS["C16"] = {
 SPECS["C17"] = {
     "level": "exploration", "quick_budget": 75, "thorough_budget": 900, "assumptions": CODEC_ASSUME + CRASH_ASSUME, "run": generic_run,
     "parts": [
-        {"name": "codec", "engine": "codec", "flavour": "asan", "kind": "C17", "nt": "C17.nt", "quick_count": 3000, "thorough_count": 1000000, "budget_share": 0.25,
+        {"name": "codec", "engine": "codec", "flavour": "asan", "kind": "C17", "nt": "C17.nt", "eval_counter": ["edit.roundtrips", "varint.values"], "quick_count": 3000, "thorough_count": 1000000, "budget_share": 0.25,
          "rule": "version edits with every field present/absent, values at 2^(7k)+-1 and 2^64-1, levels 0..6, arbitrary keys >= 8 bytes, up to 300 (5000 thorough) files: export equals the reference encoding, reference decodes it, import(export(e)) == e, "
                  "permuted-field reference encodings import identically; varint32 exhaustively within +-1024 of every 2^(7k) (all 2^32 values in the thorough tier), varint64 around every 2^(7k); non-trivial = edit with >=1 file entry and a multi-byte varint, or a varint range"},
-        {"name": "hist", "engine": "hist", "flavour": "asan", "kind": "histC17", "nt": "C17.nt", "quick_count": 400, "thorough_count": 100000, "budget_share": 0.35,
+        {"name": "hist", "engine": "hist", "flavour": "asan", "kind": "histC17", "nt": "C17.nt", "eval_counter": "manifest_replays", "quick_count": 400, "thorough_count": 100000, "budget_share": 0.35,
          "rule": "real histories weighted to reopen: at every quiescent point the MANIFEST named by CURRENT is replayed by the reference decoder and must reproduce the reported file set (numbers, sizes, bounds), comparator name and counters; "
                  "non-trivial = MANIFEST with >=2 edits naming >=1 table; distinct by MANIFEST bytes"},
         {"name": "crash", "engine": "crash", "flavour": "asan", "kind": "C17", "nt": "C17.nt", "eval_counter": "images", "quick_count": 200, "thorough_count": 100000, "budget_share": 0.4,
@@ -345,8 +355,223 @@ for _p, _rule in (("C19", "histories (C01 generator weighted to flushes, per-lev
     SPECS[_p] = {
         "level": "exploration", "quick_budget": 50, "thorough_budget": 600, "assumptions": COMMON_ASSUME, "run": generic_run,
         "parts": [
-            {"name": "asan", "engine": "hist", "flavour": "asan", "kind": _p, "nt": _p + ".nt", "rule": _rule, "quick_count": 100000, "thorough_count": 10000000, "budget_share": 0.4},
+            {"name": "asan", "engine": "hist", "flavour": "asan", "kind": _p, "nt": _p + ".nt", "rule": _rule, "quick_count": 100000, "thorough_count": 10000000, "budget_share": 0.4,
+             "eval_counter": "repairs" if _p == "C19" else "cases"},
             {"name": "plain", "engine": "hist", "flavour": "plain", "kind": _p, "nt": _p + ".nt", "rule": "same without sanitizers (higher case rate)", "quick_count": 100000, "thorough_count": 10000000,
+             "eval_counter": "repairs" if _p == "C19" else "cases",
              "budget_share": 0.6, "seed_offset": 7777},
         ],
     }
+
+SPECS["C10"] = {
+    "level": "exploration", "quick_budget": 60, "thorough_budget": 900,
+    "assumptions": [
+        "lcdb and the harness are compiled with -fsanitize=thread (clang 14); lcdb's atomics are __atomic builtins here, which ThreadSanitizer models with their stated memory order",
+        "real OS threads, no harness scheduler; seeded sched_yield/spin delays are injected at the wrapped pthread and system-call sites",
+        "dynamic detection sees only the access pairs that were executed; a second pass runs the same programs under AddressSanitizer",
+        "each iterator is used by one thread; the database is closed after all client threads have been joined",
+    ],
+    "run": generic_run,
+    "parts": [
+        {"name": "tsan", "engine": "race", "flavour": "tsan", "kind": "C10", "nt": "C10.nt", "quick_count": 1000000, "thorough_count": 100000000, "budget_share": 0.7, "race": True, "ddmin": False,
+         "rule": "cases = (generated program of 3..5 threads (8 thorough) x 10..40 operations each: put/del/batch/get/snapshot multi-get with held snapshots/iterator walks/flush/manual compaction/property/approximate-sizes/backup, "
+                 "optional setup that fills the write buffer or stacks level-0 files) x 3 (6) delay seeds, on real threads under ThreadSanitizer; non-trivial = a run in which >=2 client calls were in flight at once and a flush, compaction or backup occurred; "
+                 "distinct by (program, delay seed)"},
+        {"name": "asan", "engine": "race", "flavour": "asan", "kind": "C10", "nt": "C10.nt", "quick_count": 1000000, "thorough_count": 100000000, "budget_share": 0.3, "race": True, "ddmin": False, "seed_offset": 99,
+         "rule": "the same programs on real threads under AddressSanitizer + UBSan (use-after-free of retired memtables, versions, files)"},
+    ],
+}
+
+SPECS["C11"] = {
+    "level": "fault_enumeration", "quick_budget": 50, "thorough_budget": 900,
+    "assumptions": COMMON_ASSUME + [
+        "single-fault model: one alteration of one file of a cleanly closed database at a time (single-bit flip, byte set to 0x00/0xFF, truncation at the offset, zero-filled 512-byte sector); the file is restored before the next one",
+        "the database is opened with paranoid_checks=1 and read with verify_checksums=1 through a fresh block cache and table cache after every alteration",
+        "a scan that ends with a non-OK status is the 'reports an error' branch: its entries are then not judged (a merged scan legitimately shows older shadowed versions before it reaches the unreadable block)",
+    ],
+    "run": generic_run,
+    "parts": [
+        {"name": "plain", "engine": "corrupt", "flavour": "plain", "kind": "C11", "nt": "C11.nt", "quick_count": 1000000, "thorough_count": 100000000, "budget_share": 0.6,
+         "rule": "cases = (generated small database: tables on >=2 levels with shadowed versions and tombstones across files, live log, multi-record MANIFEST; file; offset; alteration). Quick: every footer/index/metaindex/filter/trailer byte and block "
+                 "head/restart bytes of every table plus a seeded sample of the rest, the first 200 bytes and a sample of log/MANIFEST/CURRENT; thorough: every byte x (8 bit flips, 0x00, 0xFF, truncation, sector zeroing) of files <= 40 KB. "
+                 "All live and deleted keys are looked up and both scan directions run after each alteration; non-trivial = every evaluated alteration (all table bytes are read by the scans); distinct by (database, file, offset, alteration)"},
+        {"name": "asan", "engine": "corrupt", "flavour": "asan", "kind": "C11", "nt": "C11.nt", "quick_count": 1000000, "thorough_count": 100000000, "budget_share": 0.4, "seed_offset": 31,
+         "rule": "same under ASan+UBSan (a damaged length or offset must not become an out-of-bounds access)"},
+    ],
+}
+
+
+# ---------------------------------------------------------------------------------------------- C18: libFuzzer
+FUZZ_TARGETS = ["block", "filter", "snappy", "edit", "batch", "log", "table", "filename", "dbdir"]
+FUZZ_ENV_ASAN = "allocator_may_return_null=1:max_allocation_size_mb=256:detect_leaks=0:quarantine_size_mb=8:malloc_context_size=8"
+
+
+def _fuzz_one(exe, target, flavour, seconds, seed, workdir, use_seeds):
+    import subprocess, shutil
+    corpus = os.path.join(workdir, "%s-%s-%s" % (target, flavour, "seeded" if use_seeds else "empty"))
+    os.makedirs(corpus, exist_ok=True)
+    env = dict(os.environ)
+    env["ASAN_OPTIONS"] = FUZZ_ENV_ASAN
+    env["UBSAN_OPTIONS"] = "print_stacktrace=1:halt_on_error=1"
+    env["VF_FUZZ_TARGET"] = target
+    env["VF_FUZZ_STATS"] = corpus + ".stats"
+    if use_seeds:
+        env["VF_FUZZ_WRITE_SEEDS"] = corpus
+        committed = os.path.join(VERIF, "corpus", "C18", target)
+        if os.path.isdir(committed):
+            for f in os.listdir(committed):
+                shutil.copy(os.path.join(committed, f), corpus)
+    max_len = 1 << 20 if target == "dbdir" else (1 << 17 if target == "table" else 1 << 16)
+    cmd = [exe, "-max_total_time=%d" % int(seconds), "-seed=%d" % (seed or 1), "-timeout=10", "-rss_limit_mb=4096", "-malloc_limit_mb=2048",
+           "-max_len=%d" % max_len, "-artifact_prefix=%s-" % corpus, "-print_final_stats=1", corpus]
+    return subprocess.Popen(cmd, stdout=open(corpus + ".log", "w"), stderr=subprocess.STDOUT, env=env), corpus
+
+
+def fuzz_replay(exe, target, path, timeout=90):
+    import subprocess
+    env = dict(os.environ)
+    env["ASAN_OPTIONS"] = FUZZ_ENV_ASAN
+    env["UBSAN_OPTIONS"] = "print_stacktrace=1:halt_on_error=1"
+    env["VF_FUZZ_TARGET"] = target
+    try:
+        r = subprocess.run([exe, "-timeout=60", "-rss_limit_mb=4096", path], stdout=subprocess.PIPE, stderr=subprocess.STDOUT, text=True, errors="replace", env=env, timeout=timeout)
+        return r.returncode, r.stdout
+    except subprocess.TimeoutExpired:
+        return -999, "standalone replay did not return within %d s" % timeout
+
+
+def fuzz_run(prop, spec, tier, seed):
+    import shutil, tempfile, hashlib, subprocess
+    t0 = time.time()
+    quick = tier != "thorough"
+    with runner.BuildLock():
+        exe_nd, b1 = build.build_engine("fuzz", "fuzz-nd")
+        exe_as, b2 = build.build_engine("fuzz", "fuzz")
+    budget = _budget(tier, 50, 900)
+    workdir = tempfile.mkdtemp(prefix="lcdb-verif-fuzz.", dir=runner.SCRATCH)
+    violations, notes = [], []
+    # committed crashing inputs are regression inputs
+    nrep = 0
+    for path in sorted(glob.glob(os.path.join(runner.COMMITTED_REPLAYS, "C18-*.bin"))):
+        target = os.path.basename(path).split("-")[1]
+        nrep += 1
+        rc, out = fuzz_replay(exe_nd, target, path)
+        if rc != 0:
+            print("VIOLATION property=C18 replay=%s" % path)
+            print("  committed input still fails: %s" % out.strip().splitlines()[-1][:300] if out.strip() else "")
+            violations.append(path)
+    # campaigns: per target {shipped semantics (NDEBUG), asserts on} x {seeded, empty corpus}; two waves to stay within 16 cores
+    jobs = []
+    for t in FUZZ_TARGETS:
+        jobs.append((exe_nd, t, "nd", True))
+        jobs.append((exe_nd, t, "nd", False))
+        jobs.append((exe_as, t, "asserts", True))
+    per_wave = runner.JOBS
+    waves = [jobs[i:i + per_wave] for i in range(0, len(jobs), per_wave)]
+    secs = max(5, budget / len(waves))
+    total_execs, total_gate, distinct_gate = 0, 0, 0
+    per_target = {}
+    for wave in waves:
+        procs = []
+        for exe, t, fl, seeded in wave:
+            p, corpus = _fuzz_one(exe, t, fl, secs, seed, workdir, seeded)
+            procs.append((p, corpus, exe, t, fl))
+        for p, corpus, exe, t, fl in procs:
+            try:
+                p.wait(timeout=secs + 120)
+            except subprocess.TimeoutExpired:
+                p.kill()
+                p.wait()
+                notes.append("%s/%s: campaign killed after exceeding its wall limit (inconclusive)" % (t, fl))
+            try:
+                st = json.load(open(corpus + ".stats"))
+            except (OSError, ValueError):
+                st = {"execs": 0, "passed_gate": 0, "distinct_passed_gate": 0}
+            total_execs += st["execs"]
+            total_gate += st["passed_gate"]
+            distinct_gate += st["distinct_passed_gate"]
+            d = per_target.setdefault(t, {"execs": 0, "passed_gate": 0, "distinct_passed_gate": 0})
+            for k in d:
+                d[k] += st[k]
+            for art in sorted(glob.glob(corpus + "-*")):
+                base = os.path.basename(art)
+                kind = base[len(os.path.basename(corpus)) + 1:].split("-")[0]
+                if kind in ("crash", "leak"):
+                    rc, out = fuzz_replay(exe, t, art)
+                    if rc == 0:
+                        notes.append("%s/%s: artifact %s does not reproduce standalone (dropped)" % (t, fl, kind))
+                        continue
+                    h = hashlib.sha1(open(art, "rb").read()).hexdigest()[:12]
+                    dst = os.path.join(runner.REPLAYS, "C18-%s-%s.bin" % (t, h))
+                    os.makedirs(runner.REPLAYS, exist_ok=True)
+                    shutil.copy(art, dst)
+                    if dst not in violations:
+                        lines = [l for l in out.splitlines() if "ERROR" in l or "runtime error" in l or "SEMANTIC" in l or "Assertion" in l]
+                        print("VIOLATION property=C18 replay=%s" % dst)
+                        print("  target %s (%s): %s" % (t, fl, (lines[0] if lines else out.strip()[-200:])[:300]))
+                        violations.append(dst)
+                elif kind == "timeout":
+                    rc, out = fuzz_replay(exe, t, art, timeout=90)
+                    if rc == -999:
+                        h = hashlib.sha1(open(art, "rb").read()).hexdigest()[:12]
+                        dst = os.path.join(runner.REPLAYS, "C18-%s-%s.bin" % (t, h))
+                        shutil.copy(art, dst)
+                        print("VIOLATION property=C18 replay=%s" % dst)
+                        print("  target %s (%s): does not terminate within 90 s standalone" % (t, fl))
+                        violations.append(dst)
+                    else:
+                        notes.append("%s/%s: a slow unit under load returned in time standalone (not a violation)" % (t, fl))
+    samples = []
+    for t in ("edit", "filename", "batch"):
+        c = os.path.join(workdir, "%s-nd-seeded" % t)
+        if os.path.isdir(c):
+            fs = sorted(os.listdir(c))[:2]
+            for f in fs:
+                samples.append("%s: %s" % (t, open(os.path.join(c, f), "rb").read()[:60].hex()))
+    shutil.rmtree(workdir, ignore_errors=True)
+    print_known(prop, {})
+    coverage = {
+        "evaluations": int(total_execs),
+        "distinct_nontrivial": int(distinct_gate),
+        "rule": "coverage-guided libFuzzer campaigns, one per decoder entry point (block iterator with a derived call sequence, filter reader, Snappy decoder with differential reference decode, version-edit import, "
+                "write-batch iterate/insert, log reader, table open+iterate+get+dump on an arbitrary file, file-name parser) and a whole-database target (a valid generated directory damaged at field level: overwrites, boundary "
+                "integers, truncation, splices of fragments of other files, zero runs, varint continuation bits; then open / get / scan both ways / compact / write+flush / repair / dump); each target runs with the shipped NDEBUG "
+                "semantics from a seeded and from an empty corpus, and once with assertions on; non-trivial = an input that passes the first validation gate of its decoder (counted inside the target, distinct by input hash, capped at 2M per process)",
+        "samples": samples or ["(corpora are scratch; see corpus/C18 for committed seeds)"],
+        "per_target": per_target,
+        "passed_gate_total": int(total_gate),
+        "campaign_seconds_each": round(secs, 1),
+        "campaigns": len(jobs),
+        "committed_replays_run": nrep,
+        "notes": notes[:20],
+        "exhaustive": False,
+    }
+    wall = time.time() - t0
+    runner.write_evidence(prop, tier, seed, "exploration", coverage, spec["assumptions"], wall, len(violations))
+    print("%s %s: %d executions, %d distinct inputs past a validation gate, %d violation(s), %.1fs" % (prop, tier, total_execs, distinct_gate, len(violations), wall))
+    return 1 if violations else 0
+
+
+def fuzz_replay_one(prop, spec, path):
+    with runner.BuildLock():
+        exe_nd, _ = build.build_engine("fuzz", "fuzz-nd")
+    target = os.path.basename(path).split("-")[1] if os.path.basename(path).startswith("C18-") else os.environ.get("VF_FUZZ_TARGET", "block")
+    rc, out = fuzz_replay(exe_nd, target, path)
+    if rc == 0:
+        print("PASS %s" % path)
+        return 0
+    print("VIOLATION property=C18 replay=%s" % path)
+    print("  " + out.strip()[-400:])
+    return 1
+
+
+SPECS["C18"] = {
+    "level": "exploration", "run": fuzz_run, "replay": fuzz_replay_one, "parts": [],
+    "assumptions": [
+        "clang 14 libFuzzer, ASan + UBSan with -fno-sanitize-recover (pointer-overflow check excluded: NULL+0 on an empty buffer is folded into it); lcdb compiled unmodified with -fsanitize=fuzzer-no-link",
+        "ASAN_OPTIONS allocator_may_return_null=1:max_allocation_size_mb=256 so that a handle or length announcing gigabytes takes lcdb's own out-of-memory path instead of an ASan-internal slow path",
+        "the NDEBUG build (shipped semantics) is primary; the assertion build is fuzzed too and an assertion reachable from file bytes is reported",
+        "libFuzzer's -seed pins a campaign only approximately; the saved artifact is the reproducible unit; timeout artifacts count only if the input does not return within 90 s standalone",
+        "leak reports are not part of this property and are disabled",
+    ],
+}
